@@ -286,10 +286,19 @@ func vmExecConc(me MultiEndpoint, sid string, i int, st vmStep) vmEvent {
 			idle = time.Time{}
 			continue
 		}
-		if idle.IsZero() {
+		allParked := true
+		for _, p := range c.procs {
+			if p.fn == nil || p.state == "done" {
+				continue
+			}
+			if !vmIsLockWait(vmWaitState(p.gid)) {
+				allParked = false
+			}
+		}
+		if idle.IsZero() || !allParked {
 			idle = time.Now()
 		}
-		if time.Since(idle) > 400*time.Millisecond {
+		if time.Since(idle) > 600*time.Millisecond {
 			hung = true
 			break
 		}
